@@ -10,12 +10,14 @@
 package racekit
 
 import (
+	"context"
 	"fmt"
 	"os"
 	"os/exec"
 	"path/filepath"
 	"regexp"
 	"strings"
+	"time"
 
 	"verif/kit"
 )
@@ -54,11 +56,27 @@ func Pass(r *kit.Result, name, pkg, tags string, args []string, env []string) {
 		r.Violate("harness:race-pass-build-failed", "%s", string(out))
 		return
 	}
-	cmd := exec.Command(bin, args...)
+	// The pass is free-running, so a change that makes the bodies block for
+	// ever would hang it: it is stopped at a time limit. Running out of time
+	// is never a verdict (blocking is decided by the scheduler cases, which
+	// detect deadlock exactly); the reports printed until then still count.
+	limit := 200 * time.Second
+	if v := os.Getenv("VERIF_RACE_LIMIT_SECONDS"); v != "" {
+		var n int
+		if fmt.Sscan(v, &n); n > 0 {
+			limit = time.Duration(n) * time.Second
+		}
+	}
+	ctx, cancel := context.WithTimeout(context.Background(), limit)
+	defer cancel()
+	cmd := exec.CommandContext(ctx, bin, args...)
+	cmd.WaitDelay = 5 * time.Second
 	cmd.Env = append(append(os.Environ(), "GOMAXPROCS=16", "GORACE=halt_on_error=0"), env...)
 	out, err := cmd.CombinedOutput()
 	races := raceRe.FindAllString(string(out), -1)
-	if !strings.Contains(string(out), "race pass done") {
+	if ctx.Err() != nil {
+		r.Count("race_pass_stopped_at_its_time_limit_inconclusive", 1)
+	} else if !strings.Contains(string(out), "race pass done") {
 		r.Violate("harness:race-pass-did-not-finish", "%v\n%s", err, tailString(string(out), 3000))
 	}
 	inRepo, other := 0, 0
